@@ -131,6 +131,78 @@ def unloadable_then_busy(x, k=1):
     return x
 
 
+class SlowToReceive:
+    """a result which takes a while to rebuild on the parent side"""
+
+    def __init__(self, v, delay):
+        self.v, self.delay = v, delay
+
+    def __reduce__(self):
+        return (_slow_value, (self.v, self.delay))
+
+
+def _slow_value(v, delay):
+    time.sleep(delay)
+    return ('slow', v)
+
+
+def slow_results(x, k=1):
+    return SlowToReceive(x, 0.5) if x < 100 else x
+
+
+def remote_restart_while_results_are_still_arriving(res):
+    """restart(finite timeout) of a persistent REMOTE worker whose child has finished while the parent's frontend thread still
+    needs longer than the timeout to receive what the child left: the new incarnation's stream must never yield anything of the
+    old one - or restart() must raise"""
+    from pyworkers.persistent_remote import PersistentRemoteWorker
+    from pyworkers.remote_server import spawn_server
+    server = spawn_server(('127.0.0.1', 0))
+    case = dict(real='remote', state='results-still-arriving', restarts=1)
+    why = None
+    try:
+        w = PersistentRemoteWorker(slow_results, name='wname', userid=77, host=server.addr)
+        for x in range(8):
+            w.enqueue(x)
+        old_id = w.id
+        raised = None
+        try:
+            w.restart(timeout=1.5)
+        except RuntimeError as e:
+            raised = e
+        if raised is None:
+            stale = []
+            t0 = time.time()
+            while time.time() - t0 < 4.5:
+                try:
+                    stale.append(w.next_result(block=False))
+                except queue.Empty:
+                    time.sleep(0.05)
+            if stale:
+                why = f'restart() returned, and the new incarnation\'s result stream then yielded {stale[:3]} although nothing was enqueued to it (results of the previous incarnation)'
+            elif not w.is_alive() or w.id == old_id:
+                why = f'after restart(): alive={w.is_alive()}, identity changed={w.id != old_id}'
+            else:
+                w.enqueue(100); w.enqueue(101)
+                got = drain(w, 2, timeout=10)
+                if got != [100, 101]:
+                    why = f'after the restart the worker answered {got} to inputs [100, 101]'
+        try:
+            w.terminate(timeout=2, force=True)
+        except Exception:
+            pass
+    except Exception as e:   # noqa
+        import traceback
+        why = f'scenario raised {type(e).__name__}: {e} {traceback.format_exc()[-300:]}'
+    finally:
+        try:
+            server.terminate(force=True)
+        except Exception:
+            pass
+    res.count('real:remote:results-still-arriving'); res.case(('real', 'remote', 'results-still-arriving'), nontrivial=True, sample=dict(case, outcome=why or 'ok'))
+    if why:
+        res.violation(case, why)
+
+
 def remote_outcome_known_child_busy(res):
     """restart() of a persistent REMOTE worker whose final outcome is already known on the parent side (its result stream
     broke on a result that cannot be rebuilt) while the child is still busy with a queued input: the old child must be
@@ -375,4 +447,5 @@ def main(tier, seed, replay=None):
         res.tie('correspondence:restart', dict(case=repr(keep[i])[:800], term=terms[i][:800]))
     real_restarts(res, tier)
     remote_outcome_known_child_busy(res)
+    remote_restart_while_results_are_still_arriving(res)
     return res.finish()
